@@ -170,6 +170,32 @@ def bj_programs(rng, n):
     return out
 
 
+def mh_programs(rng, n):
+    """a recursive rule with SEVERAL head clauses one of which is read only by a later stratum: `reach(y), used(x, y) <-- reach(x), edge(x, y)` and
+    `out(x, y) <-- used(x, y)`, `entered(y, x) <-- reach(y), used(x, y)`.  By the documented meaning (one rule per head clause) `used` lives in a stratum of its
+    own; compiled as one rule it is written inside the loop of `reach`'s stratum although nothing there reads it.  On graphs with back edges the last productive
+    iteration derives rows of `used` only."""
+    out = []
+    for i in range(n):
+        p = {"rels": [{"arity": 2}, {"arity": 1}, {"arity": 2}, {"arity": 2}, {"arity": 2}, {"arity": 1}], "macros": [], "rules": []}
+        heads = [(1, [("var", 1)]), (2, [("var", 0), ("var", 1)])]
+        if i % 3 == 1: heads = heads[::-1]
+        if i % 3 == 2: heads.append((5, [("add", ("var", 1), 0)]))                       # a third head, read by nobody
+        p["rules"].append({"heads": heads, "body": [("cl", 1, [("v", 0)], []), ("cl", 0, [("v", 0), ("v", 1)], [])]})
+        p["rules"].append({"heads": [(3, [("var", 0), ("var", 1)])], "body": [("cl", 2, [("v", 0), ("v", 1)], [])]})
+        p["rules"].append({"heads": [(4, [("var", 1), ("var", 0)])], "body": [("cl", 1, [("v", 1)], []), ("cl", 2, [("v", 0), ("v", 1)], [])]})
+        out.append(p)
+    return out
+
+
+def mh_input(rng):
+    n = rng.range(3, 6)
+    edges = [(i, (i + 1) % n) for i in range(n)]                                       # a cycle through the start node: the last edge leads back to a reached node
+    if rng.chance(1, 2): edges += [(rng.below(n), rng.below(n)) for _ in range(rng.below(3))]
+    if rng.chance(1, 3): edges.append((n - 1, n + 1))
+    return {0: list(dict.fromkeys(rng.shuffle(edges))), 1: [(0,)], 2: [], 3: [], 4: [], 5: []}
+
+
 def bj_input(rng):
     n = rng.range(5, 9)
     foo = [(rng.range(0, 5), y) for y in range(n)]                       # many distinct join keys
@@ -213,6 +239,10 @@ def build(rng, tier):
         q = S.expand_spec(p)
         inputs = [bj_input(rng.fork(f"bj_{i}i{j}")) for j in range(6 if quick else 16)]
         add(f"b{i}", p, q, "binder-join-stream", inputs)
+    for i, p in enumerate(mh_programs(rng.fork("mh"), 3 if quick else 9)):
+        q = S.expand_spec(p)
+        inputs = [mh_input(rng.fork(f"mh_{i}i{j}")) for j in range(5 if quick else 14)]
+        add(f"m{i}", p, q, "multi-head-side-stream", inputs)
     for i, (p, names, shape) in enumerate(f10_programs(rng.fork("f10"), 3 if quick else 9)):
         q = S.expand_spec(p)
         nm = eng.Names(var=lambda n, names=names: names.get(n, f"v{n}"))
